@@ -91,7 +91,9 @@ func (st *Transfer) hashSearch(targets []target, tagTable map[uint16]int, head r
 
 	tagHits := 0
 Outer:
-	for {
+	// Nothing can match (and there is no window to roll) when the file is
+	// shorter than the last block: in particular for an empty file.
+	for offset < end {
 		tag := rsyncchecksum.Tag2(uint16(s1), uint16(s2))
 		var sum2 []byte
 		doneCsum2 := false
@@ -204,9 +206,6 @@ Outer:
 		}
 
 		offset++
-		if offset >= end {
-			break
-		}
 	}
 
 	if err := st.matched(h, ms, head, fi.Size(), -1); err != nil {
